@@ -147,14 +147,20 @@ def make_dataset(rng, kind, n=None):
     else:
         start = dt.datetime(rng.choice([1950, 1999, 2016, 2023, 2024]), rng.randint(1, 12), rng.randint(1, 28))
         span = rng.choice([dt.timedelta(hours=6), dt.timedelta(days=3), dt.timedelta(days=45), dt.timedelta(days=400), dt.timedelta(days=4000)])
+        # datetime values carry microseconds ("the datum's time exactly as supplied"): short spans keep them
+        micro = rng.random() < 0.2
+        if micro:
+            span = rng.choice([dt.timedelta(milliseconds=10), dt.timedelta(milliseconds=137), dt.timedelta(seconds=2), dt.timedelta(minutes=3)])
+            start += dt.timedelta(hours=rng.randint(0, 23), minutes=rng.randint(0, 59), seconds=rng.randint(0, 59), microseconds=rng.randint(0, 999999))
         for i in range(n):
             t = start + span * rng.random()
-            t = t.replace(microsecond=(t.microsecond // 1000) * 1000)
-            form = rng.choice(["datetime", "datetime", "date"]) if kind == "time" else "datetime"
+            if not micro:
+                t = t.replace(microsecond=(t.microsecond // 1000) * 1000)
+            form = rng.choice(["datetime", "datetime", "date"]) if kind == "time" and not micro else "datetime"
             if form == "date":
                 data.append({"time": t.date()})
             else:
-                if rng.random() < 0.3:
+                if rng.random() < 0.3 and not micro:
                     t = t.replace(hour=0, minute=0, second=0, microsecond=0)
                 data.append({"time": t})
     for i, d in enumerate(data):
@@ -275,13 +281,13 @@ def drawing_record(backend, tl, doc, opts, data, kind):
         if kind == "linear":
             e["t3"] = int(round(Fraction(d["time"]) * 1000))
         else:
-            e["t"] = tproj(as_datetime(d["time"]))[:2]
+            e["t"] = tproj(as_datetime(d["time"]))
         drec.append(e)
     rec["data"] = drec
     if kind == "linear":
         rec["dom3"] = [int(round(Fraction(x) * 1000)) for x in dom]
     else:
-        rec["domt"] = [tproj(x)[:2] for x in dom]
+        rec["domt"] = [tproj(x) for x in dom]
     ticks_src = list(scale.ticks()) if opts["showTicks"] else []
     if backend == "svg":
         P = parse_svg(doc)
@@ -325,7 +331,7 @@ def drawing_record(backend, tl, doc, opts, data, kind):
         if kind == "linear":
             tk.append({"v3": int(round(Fraction(float(t)) * 1000))})
         else:
-            tk.append({"t": tproj(t)[:2], "civ": [t.year, t.month, t.day, t.isoweekday() % 7, t.hour, t.minute, t.second]})
+            tk.append({"t": tproj(t), "civ": [t.year, t.month, t.day, t.isoweekday() % 7, t.hour, t.minute, t.second]})
     rec["tickvals"] = tk
     if kind == "linear":
         step = (float(ticks_src[1]) - float(ticks_src[0])) if len(ticks_src) >= 2 else 1.0
@@ -481,6 +487,25 @@ def cluster_case(size, rng):
     return data, opts
 
 
+def big_case(total, rng):
+    """`total` labels (the claim goes up to 1000) with one conflict cluster of 100 and an axis long enough for the rest to stay in
+    small clusters."""
+    start = dt.datetime(2020, 1, 1)
+    data = []
+    for i in range(100):
+        data.append({"time": start + dt.timedelta(days=1500, minutes=i), "width": 20, "id": len(data) + 1, "text": "c%d" % i})
+    for i in range(total - 100):
+        d = {"time": start + dt.timedelta(days=rng.randint(0, 3000), hours=rng.randint(0, 23)), "width": 20, "id": len(data) + 1}
+        if rng.random() < 0.5:
+            d["text"] = "item %d" % i
+        data.append(d)
+    rng.shuffle(data)
+    direction = rng.choice(["up", "down", "left", "right"])
+    opts = {"direction": direction, "initialWidth": 250000, "initialHeight": 250000, "scale": "TIME",
+            "labella": {"algorithm": rng.choice(["overlap", "simple"]), "maxPos": 249000}}
+    return data, opts
+
+
 def total_record(desc, data, opts):
     rec = {"desc": desc, "svg": "ok", "tikz": "ok", "dots5": [], "degenerate": 0, "where": ""}
     import traceback
@@ -539,12 +564,31 @@ def fixed_config(name):
         return data, {"direction": "up", "labella": {"maxPos": 300, "lineSpacing": 9, "nodeSpacing": 5, "stubWidth": 3}, "layerGap": 30,
                       "margin": {"left": 5, "right": 45, "top": 0, "bottom": 10},
                       "labelPadding": {"left": 6, "right": 1, "top": 0, "bottom": 4}}
+    # data-derived domains for which nice() is NOT idempotent (the widened extent picks a coarser tick interval): a timeline
+    # that fitted its axis again at a later export would draw another document
+    if name in ("c7", "c8", "c9"):
+        start, span = {"c7": (dt.datetime(2016, 3, 6, 19, 45), dt.timedelta(days=13, seconds=68830)),
+                       "c8": (dt.datetime(1999, 11, 26, 15, 26), dt.timedelta(days=37, seconds=9773)),
+                       "c9": (dt.datetime(1999, 9, 7, 12, 49), dt.timedelta(seconds=9, milliseconds=194))}[name]
+        k = {"c7": 6, "c8": 9, "c9": 5}[name]
+        data = [{"time": start + span * (i / float(k - 1)), "width": 40, "text": "%s%d" % (name, i)} for i in range(k)]
+        for d in data:
+            d["time"] = d["time"].replace(microsecond=(d["time"].microsecond // 1000) * 1000)
+        return data, ({"direction": "up"} if name == "c8" else {})
     raise KeyError(name)
 
 
 def random_config(seed):
     rng = random.Random(seed)
     data = make_dataset(rng, "time", n=rng.randint(2, 30))
+    if rng.random() < 0.5:
+        # any span between a second and thirty years (log-uniform)
+        t0 = as_datetime(data[0]["time"])
+        span = dt.timedelta(seconds=int(10 ** rng.uniform(0, 9)))
+        for d in data:
+            t = t0 + span * rng.random()
+            d["time"] = t.replace(microsecond=(t.microsecond // 1000) * 1000)
+        data[0]["time"], data[-1]["time"] = t0, t0 + span
     opts = {"direction": rng.choice(["up", "down", "left", "right"])}
     if rng.random() < 0.5:
         opts["labella"] = {"maxPos": rng.choice([200, 360]), "algorithm": rng.choice(["overlap", "simple"])}
@@ -635,7 +679,7 @@ def play_timelines(h, seed):
 
 def random_timelines_history(rng):
     ids = [1, 2, 3, 4][:rng.randint(2, 4)]
-    cfgs = ["c1", "c2", "c3", "c4", "c5", "c6", "r1", "r2", "r3", "r4"]
+    cfgs = ["c1", "c2", "c3", "c4", "c5", "c6", "c7", "c8", "c9", "r1", "r2", "r3", "r4", "r5", "r6", "r7", "r8"]
     h = []
     built = set()
     for _ in range(rng.randint(4, 14)):
@@ -692,7 +736,7 @@ def main():
                 data, opts = concretise(desc, rng)
                 recs.append(total_record(desc, data, opts))
         for size, name in job.get("clusters", []):
-            data, opts = cluster_case(size, rng)
+            data, opts = big_case(size, rng) if name.startswith("n") else cluster_case(size, rng)
             desc = {"count": 40, "ttype": "datetime", "arr": "unsorted", "span": "century", "opts": "partial", "dir": "up",
                     "alg": "none", "bounds": "none", "ticks": 1, "cluster": name}
             recs.append(total_record(desc, data, opts))
